@@ -260,101 +260,6 @@ fn literal_value(s: &str) -> Rat {
     Rat::new(false, Mag::from_decimal_digits(&format!("{}{}", ip, fp)), Mag::pow10(fp.len() as u32))
 }
 
-fn mag_to_decimal(m: &Mag) -> String {
-    let mut parts: Vec<u32> = Vec::new();
-    let mut cur = m.clone();
-    while !cur.is_zero() {
-        let (q, r) = cur.divrem_small(1_000_000_000);
-        parts.push(r);
-        cur = q;
-    }
-    match parts.pop() {
-        None => "0".to_string(),
-        Some(top) => {
-            let mut t = top.to_string();
-            for p in parts.iter().rev() {
-                t.push_str(&format!("{:09}", p));
-            }
-            t
-        }
-    }
-}
-
-/// (integer digits, fraction digits) of m * 2^e, exactly
-fn dyadic_digits(m: u64, e: i32) -> (String, String) {
-    let mut v = Mag::from_u128(m as u128);
-    if e >= 0 {
-        for _ in 0..e {
-            v = v.mul_small(2);
-        }
-        (mag_to_decimal(&v), String::new())
-    } else {
-        let k = (-e) as usize;
-        for _ in 0..k {
-            v = v.mul_small(5);
-        }
-        let d = mag_to_decimal(&v);
-        let d = if d.len() <= k { format!("{}{}", "0".repeat(k + 1 - d.len()), d) } else { d };
-        let (ip, fp) = d.split_at(d.len() - k);
-        (ip.to_string(), fp.trim_end_matches('0').to_string())
-    }
-}
-
-pub fn midpoint_literals() -> Vec<String> {
-    let mut out = Vec::new();
-    let pool: [f64; 30] = [
-        0.5, 0.1, 0.2, 0.3, 0.7, 0.25, 0.001, 1e-5, 1e-10, 1e-20, 1e-40, 1.0, 1.5, 2.0, 3.141592653589793, 2.718281828459045, 10.0, 123.456,
-        1e10, 4503599627370496.0, 9007199254740992.0, 1e22, 1e23, 1e40, 0.9999999999999999, 0.49999999999999994, 65536.0, 0.0625, 7.0, 1e-7,
-    ];
-    for x in pool {
-        for b in [x.to_bits(), x.to_bits() - 1] {
-            // midpoint between the double with bits b and the next one: (2m + 1) * 2^(e - 1)
-            let exp = ((b >> 52) & 0x7ff) as i32;
-            let frac = b & ((1u64 << 52) - 1);
-            let (m, e) = if exp == 0 { (frac, -1074) } else { (frac | (1u64 << 52), exp - 1075) };
-            let (ip, fp) = dyadic_digits(2 * m + 1, e - 1);
-            if ip.len() + fp.len() > 600 {
-                continue;
-            }
-            let mut fracs: Vec<String> = vec![fp.clone()];
-            if !fp.is_empty() {
-                // the expansion of an odd multiple of a negative power of two ends in 5
-                let below = format!("{}4{}", &fp[..fp.len() - 1], "9".repeat(12));
-                fracs.push(below);
-                fracs.push(format!("{}1", fp));
-                fracs.push(format!("{}{}1", fp, "0".repeat(30)));
-                fracs.push(format!("{}{}", fp, "0".repeat(30)));
-            } else {
-                fracs.push("0".repeat(25) + "1");
-                fracs.push("0".repeat(60));
-            }
-            for f in fracs {
-                let ipt = ip.trim_start_matches('0');
-                if ipt.is_empty() {
-                    out.push(format!(".{}", f));
-                    out.push(format!("0.{}", f));
-                    out.push(format!("000.{}", f));
-                } else if f.is_empty() {
-                    out.push(ipt.to_string());
-                    out.push(format!("{}.", ipt));
-                    out.push(format!("0{}", ipt));
-                } else {
-                    out.push(format!("{}.{}", ipt, f));
-                    out.push(format!("00{}.{}", ipt, f));
-                }
-            }
-            if fp.is_empty() {
-                // an integer midpoint: one below
-                out.push(format!("{}.{}", {
-                    let v = Mag::from_decimal_digits(&ip).sub(&Mag::from_u128(1));
-                    mag_to_decimal(&v)
-                }, "9".repeat(30)));
-            }
-        }
-    }
-    out
-}
-
 pub fn literal_inputs(max_chr: usize) -> Vec<String> {
     let mut out: Vec<String> = Vec::new();
     // every string over {0 1 5 9 .} up to max_chr characters that is a literal shape
@@ -420,7 +325,7 @@ pub fn literal_inputs(max_chr: usize) -> Vec<String> {
     // the exact decimal expansions of the midpoints between adjacent doubles (up to a few hundred digits), each as it
     // stands (a tie), a hair below and a hair above it, in every spelling of the same digits: a reader that drops
     // digits it believes redundant goes wrong exactly here
-    for lit in midpoint_literals() {
+    for lit in refmodel::families::midpoint_literals() {
         out.push(lit);
     }
     // neighbourhoods of 2^53, 2^63, 2^64, 2^96, 10^28 and round-half cases
